@@ -303,38 +303,87 @@ def band_and_unions(ck):
 
 
 def toml_calls(ck):
+    """writer and reader against ghost objects of the two TOML libraries: what ends up in the file is the TOML text of model_dump() with
+    default options -- whether it gets there through dump(d, f) or f.write(dumps(d)[.encode()]) --, and every key of the loaded document
+    reaches the validators -- through NssConfig(**d) or NssConfig.model_validate(d)"""
     from nuspacesim import config as CFG
 
     calls = []
 
+    class TomlText(Stub):
+        def __init__(self, doc, opts, binary=False):
+            self.doc, self.opts, self.binary = doc, opts, binary
+
+        def encode(self, enc="utf-8", *a):
+            return TomlText(self.doc, dict(self.opts, encoding=str(enc).lower().replace("_", "-")), True)
+
     class F(Stub):
+        def __init__(self, mode):
+            self.mode, self.content = mode, None
+
         def __enter__(self):
             return self
 
         def __exit__(self, *a):
             return False
 
+        def write(self, x):
+            self.content = x
+            calls.append(("write", x))
+
+        def close(self):
+            pass
+
     class C(Stub):
         def model_dump(self, *a, **k):
             calls.append(("model_dump", a, k))
             return {"DUMP": 1}
 
-    ov = {CFG.tomli_w.dump: lambda interp, *a, **k: calls.append(("dump", a, k)), open: lambda interp, *a, **k: (calls.append(("open", a, k)) or F()),
-          CFG.tomllib.load: lambda interp, *a, **k: (calls.append(("load", a, k)) or {"title": "T"}), CFG.NssConfig: lambda interp, **k: ("CONFIG", k)}
+    files = []
+
+    def m_open(interp, name, mode="r", *a, **k):
+        f = F(mode)
+        files.append((name, f))
+        calls.append(("open", name, mode))
+        return f
+
+    def m_dump(interp, doc, f, *a, **k):
+        f.content = TomlText(doc, dict(k, extra=list(a)) if (a or k) else {}, "b" in f.mode)
+        calls.append(("dump", doc, a, k))
+
+    def m_dumps(interp, doc, *a, **k):
+        calls.append(("dumps", doc, a, k))
+        return TomlText(doc, dict(k, extra=list(a)) if (a or k) else {})
+
+    ov = {CFG.tomli_w.dump: m_dump, CFG.tomli_w.dumps: m_dumps, open: m_open,
+          CFG.tomllib.load: lambda interp, *a, **k: (calls.append(("load", a, k)) or {"title": "T"}),
+          CFG.tomllib.loads: lambda interp, *a, **k: (calls.append(("loads", a, k)) or {"title": "T"}),
+          CFG.NssConfig: lambda interp, **k: ("CONFIG", k), CFG.NssConfig.model_validate.__func__: lambda interp, cls_, doc, *a, **k: ("CONFIG", dict(doc))}
     it = harness.make_interp(ov)
     ps = it.explore(lambda: (CFG.create_toml, ["f.toml", C()], {}))
     ck.add_functions(it)
-    d = [c for c in calls if c[0] == "dump"]
     md = [c for c in calls if c[0] == "model_dump"]
-    ok = len(ps) == 1 and ps[0].kind == "return" and len(d) == 1 and d[0][1][0] == {"DUMP": 1} and not d[0][2] and len(md) == 1 and not md[0][1] and not md[0][2]
-    ck.direct("config:create_toml/post", ok, "post", "symbolic execution (call log)", note=str(calls)[:300],
-              clause="the file holds tomli_w.dump(model_dump()) with both libraries' default options (no option that changes what strings are written)", witness={"calls": str(calls)[:300]},
+    content = files[-1][1].content if files else None
+    ok = (len(ps) == 1 and ps[0].kind == "return" and len(files) == 1 and files[0][0] == "f.toml" and isinstance(content, TomlText) and content.doc == {"DUMP": 1}
+          and (content.opts in ({}, {"encoding": "utf-8"})) and len(md) >= 1 and all(not c[1] and not c[2] for c in md))
+    verdict = ok
+    if not ok:
+        # the call pattern is not one the ghost objects recognise: a violation only if the real round trip on real files fails
+        nat = native_first(ck)
+        verdict = False if nat.get("violated") else None
+    ck.direct("config:create_toml/post", verdict, "post", "symbolic execution (ghost file of the TOML writer)", note=str(calls)[:300],
+              clause="the file holds the TOML text of model_dump(), both libraries with their default options (no option that changes what strings are written)", witness={"calls": str(calls)[:300]},
               replay_out=None if ok else native_first(ck))
     calls.clear()
     ps = it.explore(lambda: (CFG.config_from_toml, ["f.toml"], {}))
-    ld = [c for c in calls if c[0] == "load"]
+    ld = [c for c in calls if c[0] in ("load", "loads")]
     ok = len(ps) == 1 and ps[0].kind == "return" and ps[0].result == ("CONFIG", {"title": "T"}) and len(ld) == 1 and not ld[0][2]
-    ck.direct("config:config_from_toml/post", ok, "post", "symbolic execution (call log)", note=str(calls)[:300], clause="the configuration is NssConfig(**tomllib.load(file)): every key of the file reaches the validators")
+    verdict = ok
+    if not ok:
+        nat = native_first(ck)
+        verdict = False if nat.get("violated") else None
+    ck.direct("config:config_from_toml/post", verdict, "post", "symbolic execution (call log)", note=str(calls)[:300], clause="the configuration is built from the whole loaded document: every key of the file reaches the validators",
+              replay_out=None if ok else native_first(ck))
 
 
 def native_first(ck):
